@@ -171,7 +171,7 @@ func init() {
 			return []Val{{Typ: types.Typ[types.Float64], C: []Term{Ite(Ge(a[0].T(), RealLit("0.0")), a[0].T(), app(SReal, "-", a[0].T()))}}}
 		},
 		"math.Sqrt": func(x *Exec, st *State, a []Val, s ssa.Instruction) []Val {
-			r := x.uf("sqrt", []Sort{SReal}, SReal, a[0].T())
+			r := x.uf("fsqrt", []Sort{SReal}, SReal, a[0].T())
 			st.assume(Ge(r, RealLit("0.0")))
 			return []Val{{Typ: types.Typ[types.Float64], C: []Term{r}}}
 		},
@@ -251,6 +251,25 @@ func init() {
 			return []Val{st.symbolic(x.eng.errorType, "posterr")}
 		},
 
+		// ---- Prometheus gauges (C08: the connected-clients gauge returns to its previous value) ----
+		"(*github.com/prometheus/client_golang/prometheus.GaugeVec).With": func(x *Exec, st *State, a []Val, s ssa.Instruction) []Val {
+			labels := a[1]
+			ep := st.mapGetRaw(labels, x.strLit("public_endpoint")).T()
+			ak := st.mapGetRaw(labels, x.strLit("app_key")).T()
+			child := x.uf("gaugechild", []Sort{SInt, SInt}, SInt, ep, ak)
+			st.assume(Gt(child, TZero))
+			x.assumeNote("A-gauge: GaugeVec.With(labels) denotes one gauge per (public_endpoint, app_key) label pair")
+			return []Val{{Typ: x.eng.lookupType("github.com/prometheus/client_golang/prometheus", "Gauge"), C: []Term{child}}}
+		},
+		"(github.com/prometheus/client_golang/prometheus.Gauge).Inc": func(x *Exec, st *State, a []Val, s ssa.Instruction) []Val {
+			st.addEvent(Event{Kind: "GaugeInc", Args: a})
+			return nil
+		},
+		"(github.com/prometheus/client_golang/prometheus.Gauge).Dec": func(x *Exec, st *State, a []Val, s ssa.Instruction) []Val {
+			st.addEvent(Event{Kind: "GaugeDec", Args: a})
+			return nil
+		},
+
 		// ---- misc ----
 		"(github.com/google/uuid.UUID).String": func(x *Exec, st *State, a []Val, s ssa.Instruction) []Val {
 			return []Val{st.symbolic(types.Typ[types.String], "uuidstr")}
@@ -279,6 +298,21 @@ func init() {
 			v := st.symbolic(x.eng.lookupType("context", "Context"), "ctx")
 			st.assume(Neq(v.T(), TZero))
 			return []Val{v}
+		},
+		"context.WithCancel": func(x *Exec, st *State, a []Val, s ssa.Instruction) []Val {
+			x.assumeNote("A-shutdown: the parent context of a connection is not cancelled (server shutdown is outside C06/C08): a derived context is cancelled only by its own CancelFunc")
+			ctx := st.symbolic(x.eng.lookupType("context", "Context"), "ctx")
+			st.assume(Neq(ctx.T(), TZero))
+			arr := st.heapGet("ghost.ctxcancelled", ArrSort(SBool))
+			st.heapSetAt("ghost.ctxcancelled", Store(arr, ctx.T(), TFalse), nil)
+			r := st.freshRef("cancelfn")
+			cf := Val{Typ: x.eng.lookupType("context", "CancelFunc"), C: []Term{r}, Fn: &Closure{Builtin: "cancel", Bindings: []Val{ctx}}}
+			return []Val{ctx, cf}
+		},
+		"(context.Context).Done": func(x *Exec, st *State, a []Val, s ssa.Instruction) []Val {
+			c := x.uf("donechan", []Sort{SInt}, SInt, a[0].T())
+			st.assume(Gt(c, TZero))
+			return []Val{{Typ: types.NewChan(types.RecvOnly, types.NewStruct(nil, nil)), C: []Term{c}}}
 		},
 		"(context.Context).Err": func(x *Exec, st *State, a []Val, s ssa.Instruction) []Val {
 			arr := st.heapGet("ghost.ctxcancelled", ArrSort(SBool))
